@@ -644,3 +644,31 @@ def constructor_forwarding(ctx, rep, rule):
                               "what the caller gave as `%s` is lost (or altered) on its way to the class that uses it"
                               % name)
     rep.ok(rule, "%d shared constructor parameters handed on unchanged" % n)
+
+
+def shutdown_bounded_by_default(ctx, rep, rule):
+    """a scheduler built without saying anything about its shutdown phase bounds it: the default of `shutdown_timeout`,
+    in every constructor that takes it, is a positive number - with no bound a job whose co_shutdown() blocks wedges
+    a run that had otherwise ended (after its timeout, after a critical failure)"""
+    r, p = ctx.roles, ctx.prog
+    n = 0
+    for cls in p.classes.values():
+        if r.sched not in cls.mro:
+            continue
+        f = cls.methods.get('__init__')
+        if f is None:
+            continue
+        a = f.node.args
+        names = [x.arg for x in a.posonlyargs + a.args]
+        dflt = dict(zip(names[len(names) - len(a.defaults):], a.defaults))
+        dflt.update({k.arg: d for k, d in zip(a.kwonlyargs, a.kw_defaults) if d is not None})
+        if 'shutdown_timeout' not in names + [k.arg for k in a.kwonlyargs]:
+            continue
+        n += 1
+        d = dflt.get('shutdown_timeout')
+        ok = isinstance(d, ast.Constant) and isinstance(d.value, (int, float)) and not isinstance(d.value, bool) and d.value > 0
+        rep.check(ok, rule, "%s shutdown_timeout defaults to a bound" % f.qualname, f.qualname,
+                  "default of shutdown_timeout: %s" % (src(d) if d is not None else "none (required)"),
+                  "a scheduler that says nothing about its shutdown phase has an unbounded one: a co_shutdown() that "
+                  "blocks keeps run() from returning, after the timeout or the critical failure that ended it")
+    rep.need(rule, n, 1, "constructors taking shutdown_timeout")
